@@ -5,6 +5,7 @@ import time
 import ssl
 import sys
 from functools import partial
+from threading import RLock
 from pymodbus.constants import Defaults
 from pymodbus.utilities import hexlify_packets, ModbusTransactionState
 from pymodbus.factory import ClientDecoder
@@ -45,6 +46,7 @@ class BaseModbusClient(ModbusClientMixin):
         self._debug = False
         self._debugfd = None
         self.broadcast_enable = kwargs.get('broadcast_enable', Defaults.broadcast_enable)
+        self._connect_lock = RLock()
 
     # ----------------------------------------------------------------------- #
     # Client interface
@@ -103,9 +105,13 @@ class BaseModbusClient(ModbusClientMixin):
         :param request: The request to process
         :returns: The result of the request execution
         """
-        if not self.connect():
-            raise ConnectionException("Failed to connect[%s]" % (self.__str__()))
-        return self.transaction.execute(request)
+        # connect() is check-then-act: without the lock two first callers
+        # could both open a socket, the second replacing the one the first
+        # is already waiting on for its reply
+        with self._connect_lock:
+            if not self.connect():
+                raise ConnectionException("Failed to connect[%s]" % (self.__str__()))
+            return self.transaction.execute(request)
 
     # ----------------------------------------------------------------------- #
     # The magic methods
